@@ -217,6 +217,9 @@ func (e *Engine) verifyFunc(fc *FuncContract) (res *FuncResult) {
 		if th == "numerals" {
 			e.numeralInit()
 		}
+		if th == "strlen" {
+			e.strLenQ = true
+		}
 	}
 	params := e.paramObjects(fc)
 	entry := map[types.Object]Value{}
